@@ -541,6 +541,12 @@ def _run_coupler(case):
     args = None if a is None else (a,)
     dec = getattr(K, case["which"])(c, args=args)
     g = dec(f)
+    # the same coupler object decorates another function afterwards: the first decorated function keeps its own
+    other = (lambda x, *a_: [99.0 for _ in x]) if case["which"] in ("outer", "outer_proxy") else (lambda x, *a_: 12345.0)
+    try:
+        dec(other)
+    except Exception:
+        pass
     x = _input(case)
     r = g(x) if b is None else g(x, b)
     out = dict(value=_fl(r) if isinstance(r, list) else float(r))
